@@ -9,8 +9,34 @@ fn lit(rng: &mut Rng) -> String {
     rng.pick(&["0.0f", "1.0f", "2.5f", "-1.5f", "0.25f", "100.0f", "3.0f"]).to_string()
 }
 
+/// `mul` / `transpose` on matrix parameters (shapes the type checker has `mul` for): the orientation of the emitted objects
+pub fn mul_program(rng: &mut Rng) -> String {
+    let (r, c) = *rng.pick(&[(3usize, 3usize), (3, 4), (4, 3), (4, 4)]);
+    let mt = format!("float{}x{}", r, c);
+    let (vin, vout) = (format!("float{}", c), format!("float{}", r));
+    let mut out = format!("{} fmul({} m, {} n, {} v, {} w)\n{{\n", vout, mt, mt, vin, vout);
+    out.push_str(&format!("    {} t = m {} n;\n", mt, rng.pick(&["+", "-"])));
+    out.push_str(&format!("    {} a = mul({}, v);\n", vout, rng.pick(&["m", "t", "n"])));
+    if r == c {
+        out.push_str(&format!("    a = a + mul(w, {});\n", rng.pick(&["m", "t"])));
+        if rng.chance(1, 2) {
+            out.push_str("    a = mul(transpose(t), a);\n");
+        }
+    } else if rng.chance(1, 2) {
+        out.push_str("    a = a - w;\n");
+    }
+    if r == c && rng.chance(1, 2) {
+        out.push_str("    a = mul(m, mul(transpose(n), a));\n");
+    }
+    out.push_str("    return a;\n}\n");
+    out
+}
+
 /// kinds of statement: 0 = passing around only (must agree), 1 = + -, 2 = constructors, 3 = scalar casts, 4 = products
 pub fn program(rng: &mut Rng) -> String {
+    if rng.chance(1, 4) {
+        return mul_program(rng);
+    }
     let (r, c) = (2 + rng.below(3) as usize, 2 + rng.below(3) as usize);
     let mt = format!("float{}x{}", r, c);
     let rowt = format!("float{}", c);
